@@ -2,8 +2,8 @@
 # tools/round2_confirm.sh <P> <src m-dir name> <new seed id> <dest: tests|lib/tests> <test name> '<detected_by json>'
 # confirms a round-2 seeded change in its agent worktree (HEAD of /repo) and keeps it under /verif/seeded/<new id>/
 P=$1; M=$2; ID=$3; DEST=$4; T=$5; DET=$6
-SRC=/tmp/seed/out2/$P/$M
-WT=/tmp/seed/w2-$P
+SRC=/tmp/seed/out${ROUND:-2}/$P/$M
+WT=/tmp/seed/w${ROUND:-2}-$P
 if [ "$DEST" = "lib/tests" ]; then CMD="cargo test -p qmluic --offline --test $T"; else CMD="cargo test --offline --test $T"; fi
 # copy only the .rs demo into the test dir (other demo files stay in demo/)
 TMPSEED=$(mktemp -d /tmp/seed/cf.XXXX); mkdir -p $TMPSEED/demo; cp $SRC/patch.diff $TMPSEED/; cp $SRC/demo/$T.rs $TMPSEED/demo/
@@ -15,7 +15,7 @@ if echo "$R" | grep -q "^CONFIRMED"; then
   python3 - <<PY
 import json
 p='/verif/seeded/$ID/meta.json'
-m=json.load(open(p)); m['round']=2; m['base']='/repo HEAD with the fix: commits (e20aa3d)'
+m=json.load(open(p)); m["round"]=int("${ROUND:-2}"); m['base']='/repo HEAD with the fix: commits (e20aa3d)'
 m['confirmed_by_me']['how']=m['confirmed_by_me']['how'].replace('pinned commit','current /repo HEAD').replace('pinned tree','clean worktree')
 json.dump(m,open(p,'w'),indent=1)
 PY
